@@ -48,14 +48,6 @@ def ratioTrip (thr : Float) (b t : Nat) : Bool :=
   let r := b.toFloat / t.toFloat
   r > thr || (r - thr).abs < eps
 
-def parseCall? (s : String) : Option Call :=
-  match s.splitOn ":" with
-  | ["tp"] => some (.tryPass false)
-  | ["tpb"] => some (.tryPass true)
-  | ["c", rt, "ok"] => rt.toNat?.map fun r => .complete r false
-  | ["c", rt, "err"] => rt.toNat?.map fun r => .complete r true
-  | _ => none
-
 def parseEnt? (s : String) : Option Ent :=
   match s.splitOn ":" with
   | [n] => n.toNat?.map Ent.t
@@ -71,6 +63,7 @@ structure RuleP where
   mx : Nat
   thrN : Nat      -- ec: the threshold
   thrF : Float    -- er / sr: the threshold
+  text : String   -- `<to>:<mr>:<thr>:<pn>:<mx>` (exact identity, what reflect.DeepEqual sees)
 
 def RuleP.cfg (r : RuleP) : Cfg :=
   { timeout := r.to, minReq := r.mr, probeNum := r.pn, slowKind := r.kind == "sr", maxRt := r.mx,
@@ -79,13 +72,14 @@ def RuleP.cfg (r : RuleP) : Cfg :=
 def parseRule? (kind : String) (ts : List String) : Option RuleP :=
   match ts with
   | [to, mr, thr, pn, mx] =>
+    let text := ":".intercalate ts
     match to.toNat?, mr.toNat?, pn.toNat?, mx.toNat? with
     | some to, some mr, some pn, some mx =>
       if to = 0 ∨ to > 100000 then none else
       match kind with
-      | "ec" => thr.toNat?.map fun k => ⟨kind, to, mr, pn, mx, k, 0.0⟩
-      | "er" => (parseFbits? thr).map fun f => ⟨kind, to, mr, pn, mx, 0, f⟩
-      | "sr" => (parseFbits? thr).map fun f => ⟨kind, to, mr, pn, mx, 0, f⟩
+      | "ec" => thr.toNat?.map fun k => ⟨kind, to, mr, pn, mx, k, 0.0, text⟩
+      | "er" => (parseFbits? thr).map fun f => ⟨kind, to, mr, pn, mx, 0, f, text⟩
+      | "sr" => (parseFbits? thr).map fun f => ⟨kind, to, mr, pn, mx, 0, f, text⟩
       | _ => none
     | _, _, _, _ => none
   | _ => none
@@ -109,26 +103,44 @@ def ridOf (rules : List RuleP) (r : RuleP) : Nat × List RuleP :=
 
 structure DS where
   kind : String := ""
-  rules : List RuleP := []            -- rid = index
-  w : World := {}                     -- the breaker objects: persist over the phases of a case
+  rules : List RuleP := []            -- rid = index (identity up to isEqualsTo)
+  table : List RuleP := []            -- the rule table of the case: `cb.new` is rule 0, `rule <id> …` the others
+  lastSpec : List String := []        -- the raw rule list of the last effective load (what DeepEqual compares with)
+  w : World := {}                     -- the breaker objects and the published list: persist over the phases of a case
   glog : List Note := []              -- listener calls in call order, with the harness thread's id
   progs : List (List WCall) := []     -- threads declared for the next `sched`
+  specs : List (List (List String)) := []   -- per declared thread: the raw rule lists of its load items, in order
   fin : Option (List WT) := none      -- threads of the last `sched` (all finished)
 
-def parseWCall? (s : DS) (tok : String) : Option (WCall × DS) :=
+/-- a thread item; for a load item also its raw rule list (`x` = pass-through rule of the custom strategy) -/
+def parseItem? (s : DS) (tok : String) : Option (WCall × Option (List String) × DS) :=
   match tok.splitOn ":" with
+  | ["tp"] => some (.check false, none, s)
+  | ["tpb"] => some (.check true, none, s)
+  | ["c", rt, "ok"] => rt.toNat?.map fun r => (.complete r false, none, s)
+  | ["c", rt, "err"] => rt.toNat?.map fun r => (.complete r true, none, s)
   | "rd" :: rest =>
     (parseRule? s.kind rest).map fun r =>
       let (rid, rules) := ridOf s.rules r
-      (.reload r.cfg rid, { s with rules := rules })
-  | _ => (parseCall? tok).map fun c => (.call c, s)
+      (.load [⟨r.cfg, rid⟩] false 0, some [r.text], { s with rules := rules })
+  | ["rl", spec] =>
+    let es := spec.splitOn ","
+    let step (acc : Option (List RuleE × List String × Nat × DS)) (e : String) :=
+      acc.bind fun (rs, raw, nx, s) =>
+        if e = "x" then some (rs, raw ++ ["x"], nx + 1, s) else
+        (e.toNat?.bind fun i => s.table[i]?).map fun r =>
+          let (rid, rules) := ridOf s.rules r
+          (rs ++ [⟨r.cfg, rid⟩], raw ++ [r.text], nx, { s with rules := rules })
+    (es.foldl step (some ([], [], 0, s))).bind fun (rs, raw, nx, s) =>
+      if rs.isEmpty then none else some (.load rs false nx, some raw, s)
+  | _ => none
 
-def parseProg? (s : DS) : List String → Option (List WCall × DS)
-  | [] => some ([], s)
+def parseProg? (s : DS) : List String → Option (List WCall × List (List String) × DS)
+  | [] => some ([], [], s)
   | t :: r =>
-    match parseWCall? s t with
+    match parseItem? s t with
     | none => none
-    | some (c, s') => (parseProg? s' r).map fun p => (c :: p.1, p.2)
+    | some (c, sp, s') => (parseProg? s' r).map fun p => (c :: p.1, (match sp with | some x => [x] | none => []) ++ p.2.1, p.2.2)
 
 def objSh (w : World) (k : Nat) : Sh := match w.objs[k]? with | some o => o.conf.sh | none => {}
 
@@ -137,35 +149,36 @@ def innerTh (w : World) (cur : Option (Nat × Nat)) : Option Th :=
 
 /-- the yield point a harness thread is parked at -/
 def wtPoint (w : World) (t : WT) : String :=
-  match t.atReload with
-  | some _ => "rd"
-  | none => match innerTh w t.cur with
+  match t.phase with
+  | .loading .. => "rd"
+  | .rebuilding .. => "rb"
+  | _ => match innerTh w t.cur with
     | some th => point th.pc
     | none => "done"
 
-/-- the token of one granted step: the words printed are those of the object the step acted on (the object the
-    thread's call was bound to when the step began; for a step that only binds / reloads: the object bound
-    afterwards, else the live one), followed by the live object's words when that is another one -/
+def listS (l : List Nat) : String := if l.isEmpty then "-" else ".".intercalate (l.map toString)
+
+/-- the token of one granted step: who, from which yield point to which, the clock, the words of **every** breaker
+    object the resource has had (`W`), the published list if it changed (`P`), the snapshots of it taken by checks /
+    completions started in this step (`S`), objects created (`N`), listener calls (`L`), check results (`R`) -/
 def token (i : Nat) (frm : String) (w w' : World) (t t' : WT) : String :=
-  let x := match t.cur with
-    | some p => p.1
-    | none => match t'.cur with | some p => p.1 | none => w'.live
-  let s' := objSh w' x
-  let v := if w'.live ≠ x then
-      let l := objSh w' w'.live
-      s!":V{w'.live},{stc l.st},{dls l.deadline},{l.probe}" else ""
-  let nw := if w'.objs.length > w.objs.length then
-      match w'.objs[w'.live]? with
-      | some o => s!":N{w'.live},{o.cfg.timeout},{o.cfg.probeNum}"
-      | none => ""
-    else ""
+  let ws := (List.range w'.objs.length).map fun k =>
+    let s := objSh w' k
+    s!":W{k},{stc s.st},{dls s.deadline},{s.probe}"
+  let p := if w'.cur ≠ w.cur then s!":P{listS w'.cur}" else ""
+  let started := (t.todo.take (t.todo.length - t'.todo.length)).filter fun c =>
+    match c with | .check _ => true | .complete .. => true | _ => false
+  let ss := started.map fun _ => s!":S{listS w'.cur}"
+  let ns := (List.range (w'.objs.length - w.objs.length)).map fun d =>
+    let k := w.objs.length + d
+    match w'.objs[k]? with
+    | some o => s!":N{k},{o.cfg.timeout},{o.cfg.probeNum}"
+    | none => ""
   let ls := match t.cur with
     | some p => ((objSh w' p.1).log.drop (objSh w p.1).log.length).map fun n => s!":L{stc n.prev}{stc n.to}"
     | none => []
-  let rs := match t.cur, innerTh w t.cur, innerTh w' t.cur with
-    | some _, some a, some b => (b.res.drop a.res.length).map fun r => s!":R{tf r}"
-    | _, _, _ => []
-  s!"{i}:{frm}>{wtPoint w' t'}:o{x}:{stc s'.st}:{dls s'.deadline}:{s'.probe}:{s'.clock}{v}{nw}{String.join ls}{String.join rs}"
+  let rs := (t'.res.drop t.res.length).map fun r => s!":R{tf r}"
+  s!"{i}:{frm}>{wtPoint w' t'}:{w'.clock}{String.join ws}{p}{String.join ss}{String.join ns}{String.join ls}{String.join rs}"
 
 /-- listener calls made in a step of harness thread `i` -/
 def newCalls (i : Nat) (w w' : World) (t : WT) : List Note :=
@@ -208,32 +221,81 @@ def startT (w : World) (glog : List Note) (progs : List (List WCall)) : RS :=
   -- tokens: replay the same advances one by one to see the words after each thread's own prelude
   let (_, _, toks) := progs.foldl (fun (p : World × Nat × List String) prog =>
     let (w, i, acc) := p
-    let r := advance w { todo := prog }
-    (r.1, i + 1, acc ++ [token i "start" w r.1 {} r.2])) (w, 0, [])
+    let r := advance w [] prog
+    (r.1, i + 1, acc ++ [token i "start" w r.1 { todo := prog } r.2])) (w, 0, [])
   { c := c, glog := glog, toks := toks }
 
 def runModel (w : World) (glog : List Note) (progs : List (List WCall)) (es : List Ent) : RS :=
   drain 10000 (es.foldl execT (startT w glog progs))
 
+/-- `reflect.DeepEqual` with the current raw rules makes a load a no-op; the raw rule lists of the loads are consumed
+    in execution order, which is only known while running: the driver therefore resolves `noop` lazily — a load item
+    is marked no-op iff its raw list equals the raw list of the load executed last before it.  Loads of different
+    threads interleave, so this is done on the fly in `execL` below. -/
+structure LS where
+  r : RS
+  last : List String                       -- raw rule list of the last effective load
+  pend : List (List (List String))         -- per thread: raw lists of its load items not yet executed
+
+/-- mark the load item thread `i` is parked at (phase `loading`) as no-op or not, just before it executes -/
+def resolveNoop (l : LS) (i : Nat) : LS :=
+  match l.r.c.ths[i]?, l.pend[i]? with
+  | some t, some (raw :: rest) =>
+    match t.phase with
+    | .loading rules _ nx =>
+      let noop := raw == l.last
+      let t' : WT := { t with phase := .loading rules noop nx }
+      { r := { l.r with c := { l.r.c with ths := l.r.c.ths.set i t' } },
+        last := if noop then l.last else raw, pend := l.pend.set i rest }
+    | _ => l
+  | _, _ => l
+
+def execL (l : LS) (e : Ent) : LS :=
+  match e with
+  | .tick _ => { l with r := execT l.r e }
+  | .t i => let l := resolveNoop l i; { l with r := execT l.r e }
+
+def allDoneL (l : LS) : Bool := allDone l.r.c
+
+def drainL : Nat → LS → LS
+  | 0, l => l
+  | fuel + 1, l =>
+    if allDoneL l then l else
+    drainL fuel ((List.range l.r.c.ths.length).foldl (fun l i => execL l (.t i)) l)
+
+/-- reload items of ≥ 2 threads while one of them yields inside the rebuild would block on the rule manager's
+    mutex with the holder parked: such a batch is rejected (by the Go side too) -/
+def batchOk (progs : List (List WCall)) : Bool :=
+  let loaders := progs.filter fun p => p.any fun c => match c with | .load .. => true | _ => false
+  let yields := progs.any fun p => p.any fun c => match c with | .load _ _ nx => nx > 0 | _ => false
+  !(yields && loaders.length ≥ 2)
+
 def stepModel (s : DS) (ts : List String) (_ : String) : DS × Option String :=
   match ts with
   | "cb.new" :: kind :: rest =>
     match parseRule? kind rest with
-    | some r => ({ kind := kind, rules := [r], w := ({} : World).reload r.cfg 0 false }, none)
+    | some r => ({ kind := kind, rules := [r], table := [r], lastSpec := [r.text],
+                   w := ({} : World).rebuild [⟨r.cfg, 0⟩] }, none)
     | none => (s, some "bad-op")
+  | "rule" :: id :: rest =>
+    match id.toNat?, parseRule? s.kind rest with
+    | some i, some r => if s.kind ≠ "" ∧ i = s.table.length then ({ s with table := s.table ++ [r] }, none) else (s, some "bad-op")
+    | _, _ => (s, some "bad-op")
   | "thread" :: tid :: calls =>
     match tid.toNat?, parseProg? s calls with
-    | some i, some (cs, s') =>
-      if s.kind ≠ "" ∧ i = s.progs.length ∧ ¬ cs.isEmpty ∧ i < 8 then ({ s' with progs := s.progs ++ [cs] }, none)
+    | some i, some (cs, sp, s') =>
+      if s.kind ≠ "" ∧ i = s.progs.length ∧ ¬ cs.isEmpty ∧ i < 8 then
+        ({ s' with progs := s.progs ++ [cs], specs := s.specs ++ [sp] }, none)
       else (s, some "bad-op")
     | _, _ => (s, some "bad-op")
   | "sched" :: es =>
     match es.mapM parseEnt? with
     | some es =>
-      if s.kind = "" ∨ es.length > 400 then (s, some "bad-op") else
-      let r := runModel s.w s.glog s.progs es
-      ({ s with w := r.c.w, glog := r.glog, progs := [], fin := some r.c.ths },
-       some (if r.toks.isEmpty then "-" else " ".intercalate r.toks))
+      if s.kind = "" ∨ es.length > 400 ∨ !batchOk s.progs then (s, some "bad-op") else
+      let l0 : LS := { r := startT s.w s.glog s.progs, last := s.lastSpec, pend := s.specs }
+      let l := drainL 10000 (es.foldl execL l0)
+      ({ s with w := l.r.c.w, glog := l.r.glog, lastSpec := l.last, progs := [], specs := [], fin := some l.r.c.ths },
+       some (if l.r.toks.isEmpty then "-" else " ".intercalate l.r.toks))
     | none => (s, some "bad-op")
   | ["results"] =>
     match s.fin with
@@ -247,8 +309,10 @@ def stepModel (s : DS) (ts : List String) (_ : String) : DS × Option String :=
   | ["final"] =>
     match s.fin with
     | some _ =>
-      let l := objSh s.w s.w.live
-      (s, some s!"st={stc l.st} dl={dls l.deadline} probe={l.probe} clk={l.clock} live={s.w.live}")
+      let ws := (List.range s.w.objs.length).map fun k =>
+        let x := objSh s.w k
+        s!" o{k}={stc x.st},{dls x.deadline},{x.probe}"
+      (s, some s!"clk={s.w.clock} list={listS s.w.cur}{String.join ws}")
     | none => (s, some "bad-op")
   | _ => (s, some "bad-op")
 
@@ -258,75 +322,70 @@ structure Rec where
   tid : Nat
   frm : String
   to : String
-  obj : Nat                                   -- the object whose words follow
-  st : St
-  dl : Nat
-  probe : Nat
   clk : Nat
-  live : Option (Nat × St × Nat × Nat)        -- the live object's words when it is another one
-  created : Option (Nat × Nat × Nat)          -- this step (a reload) created object k with (timeout, probeNum)
+  ws : List (Nat × St × Nat × Nat)       -- every object: (k, state word, deadline, probe counter)
+  pub : Option (List Nat)                -- the published list, when it changed in this step
+  snaps : List (List Nat)                -- snapshots taken by checks / completions started in this step
+  news : List (Nat × Nat × Nat)          -- objects created: (k, timeout, probeNum)
   logs : List (St × St)
   ress : List Bool
 
-def parseV? (x : String) : Option (Nat × St × Nat × Nat) :=
-  if x.startsWith "V" then
-    match (x.drop 1).toString.splitOn "," with
-    | [k, st, dl, pr] =>
-      match k.toNat?, stOf? st, (if dl = "-" then some 0 else dl.toNat?), pr.toNat? with
-      | some k, some st, some dl, some pr => some (k, st, dl, pr)
-      | _, _, _, _ => none
-    | _ => none
-  else none
-
-def parseN? (x : String) : Option (Nat × Nat × Nat) :=
-  if x.startsWith "N" then
-    match (x.drop 1).toString.splitOn "," with
-    | [k, to, pn] =>
-      match k.toNat?, to.toNat?, pn.toNat? with
-      | some k, some to, some pn => some (k, to, pn)
-      | _, _, _ => none
-    | _ => none
-  else none
+def parseList? (x : String) : Option (List Nat) :=
+  if x = "-" then some [] else (x.splitOn ".").mapM String.toNat?
 
 def parseRec? (tok : String) : Option Rec :=
   match tok.splitOn ":" with
-  | tid :: ft :: ob :: st :: dl :: pr :: clk :: extra =>
-    match tid.toNat?, ft.splitOn ">", (if ob.startsWith "o" then (ob.drop 1).toString.toNat? else none), stOf? st,
-          (if dl = "-" then some 0 else dl.toNat?), pr.toNat?, clk.toNat? with
-    | some tid, [f, t], some ob, some st, some dl, some pr, some clk =>
-      let vs := extra.filterMap parseV?
-      let ns := extra.filterMap parseN?
-      let logs := extra.filterMap fun x =>
-        match x.toList with
-        | ['L', a, b] => match stOf? (String.singleton a), stOf? (String.singleton b) with
-            | some a, some b => some (a, b) | _, _ => none
-        | _ => none
-      let ress := extra.filterMap fun x => if x = "Rt" then some true else if x = "Rf" then some false else none
-      if vs.length + ns.length + logs.length + ress.length = extra.length ∧ vs.length ≤ 1 ∧ ns.length ≤ 1 then
-        some ⟨tid, f, t, ob, st, dl, pr, clk, vs.head?, ns.head?, logs, ress⟩
-      else none
-    | _, _, _, _, _, _, _ => none
+  | tid :: ft :: clk :: extra =>
+    match tid.toNat?, ft.splitOn ">", clk.toNat? with
+    | some tid, [f, t], some clk =>
+      let r0 : Rec := ⟨tid, f, t, clk, [], none, [], [], [], []⟩
+      extra.foldl (fun (acc : Option Rec) x => acc.bind fun r =>
+        let body := (x.drop 1).toString
+        if x.startsWith "W" then
+          match body.splitOn "," with
+          | [k, st, dl, pr] =>
+            match k.toNat?, stOf? st, (if dl = "-" then some 0 else dl.toNat?), pr.toNat? with
+            | some k, some st, some dl, some pr => some { r with ws := r.ws ++ [(k, st, dl, pr)] }
+            | _, _, _, _ => none
+          | _ => none
+        else if x.startsWith "P" then (parseList? body).map fun l => { r with pub := some l }
+        else if x.startsWith "S" then (parseList? body).map fun l => { r with snaps := r.snaps ++ [l] }
+        else if x.startsWith "N" then
+          match body.splitOn "," with
+          | [k, to, pn] =>
+            match k.toNat?, to.toNat?, pn.toNat? with
+            | some k, some to, some pn => some { r with news := r.news ++ [(k, to, pn)] }
+            | _, _, _ => none
+          | _ => none
+        else if x = "Rt" then some { r with ress := r.ress ++ [true] }
+        else if x = "Rf" then some { r with ress := r.ress ++ [false] }
+        else match x.toList with
+          | ['L', a, b] => match stOf? (String.singleton a), stOf? (String.singleton b) with
+              | some a, some b => some { r with logs := r.logs ++ [(a, b)] }
+              | _, _ => none
+          | _ => none) (some r0)
+    | _, _, _ => none
   | _ => none
 
 /-- per breaker object -/
 structure OO where
   st : St := .closed
   dl : Nat := 0
-  hist : List Note := []
   openedAt : Nat := 0
   epoch : Nat := 0
   fresh : Bool := false
-  foreign : Bool := false    -- its words were seen to change without a step on it: nothing about it is attributed to a known finding
 
 structure OS where
   objs : List OO := []
   rules : List (Nat × Nat × Nat) := []          -- object ↦ (timeout, probeNum) of the rule it was built from
+  pub : List Nat := [0]                         -- the published breaker list
+  snapOf : List (Nat × List Nat) := []          -- thread ↦ the snapshot its check under way walks over
   owed : List Note := []
   log : List Note := []
   ress : List (Nat × Bool) := []
-  loads : List (Nat × Nat × Nat × Bool) := []   -- tid ↦ (object, epoch, fresh) at its last deadline load that passed
+  loads : List (Nat × List (Nat × Bool)) := []  -- thread ↦ (epoch, fresh) of every object at its last deadline load that passed
   clk : Nat := 0
-  trBad : Option String := none      -- transition rules
+  trBad : Option String := none      -- transition / list rules
   nfBad : Option String := none      -- notification rules
   prBad : Option String := none      -- probe exclusivity
   earlyNoDl : Bool := false
@@ -335,79 +394,96 @@ structure OS where
 
 def orElse (a : Option String) (b : Option String) : Option String := match a with | some x => some x | none => b
 
-def lookupLoad (loads : List (Nat × Nat × Nat × Bool)) (tid : Nat) : Option (Nat × Nat × Bool) :=
-  (loads.find? fun p => p.1 = tid).map (·.2)
-
 def getOO (o : OS) (k : Nat) : OO := (o.objs[k]?).getD ({} : OO)
 
 def setOO (o : OS) (k : Nat) (x : OO) : OS :=
   { o with objs := (o.objs ++ List.replicate (k + 1 - o.objs.length) ({} : OO)).set k x }
 
+def ruleOf (o : OS) (k : Nat) : Nat × Nat := ((o.rules.find? fun p => p.1 = k).map (·.2)).getD (0, 0)
+
+def flag (o : OS) (c : Bool) (msg : String) : OS := if c then { o with trBad := orElse o.trBad (some msg) } else o
+
 /-- fold one step record of the implementation's trace into the monitors -/
 def judgeRec (o : OS) (r : Rec) : OS :=
-  let o := match r.created with
-    | some n => { o with rules := n :: o.rules,
-                         trBad := orElse o.trBad (if r.frm ≠ "rd" then some "a breaker object appeared outside a rule reload" else none) }
+  -- the snapshot the call under way at the beginning of the step walks over (a result produced by that call comes
+  -- first among the results of the step; later ones can only belong to checks over an empty list)
+  let snapBefore := ((o.snapOf.find? fun p => p.1 = r.tid).map (·.2)).getD []
+  let o := flag o (r.clk < o.clk) "clock went backwards"
+  let o := { o with clk := r.clk }
+  let loading := r.frm = "rd" ∨ r.frm = "rb"
+  -- objects appear only in a rule load
+  let o := r.news.foldl (fun (o : OS) n => { o with rules := n :: o.rules }) o
+  let o := flag o (!r.news.isEmpty ∧ ¬ loading) "a breaker object appeared outside a rule load"
+  -- the published list changes only in the step in which a rule load completes
+  let o := match r.pub with
+    | some l => flag { o with pub := l } (¬ loading ∨ r.to = "rb")
+        s!"the resource's breaker list changed to {listS l} in a step that does not complete a rule load"
     | none => o
-  let rule := ((o.rules.find? fun p => p.1 = r.obj).map (·.2)).getD (0, 0)
-  let timeout := rule.1
-  let probeNum := rule.2
-  let oo := getOO o r.obj
-  let before := oo.st
-  let changed := decide (r.st ≠ before)
-  let o := { o with trBad := orElse o.trBad (if r.clk < o.clk then some "clock went backwards" else none), clk := r.clk }
-  -- a breaker object other than the one acted on must keep its words (a fresh object is Closed, no deadline)
-  let o := match r.live with
-    | some (k, st, dl, _) =>
-      let l := getOO o k
-      let o := { o with trBad := orElse o.trBad (
-          if st ≠ l.st then some s!"state word of breaker object {k} is {stc st} without a CAS on that object (expected {stc l.st})"
-          else if dl ≠ l.dl then some s!"deadline of breaker object {k} changed without a store on that object" else none) }
-      if st ≠ l.st ∨ dl ≠ l.dl then
-        setOO o k { l with st := st, dl := dl, foreign := true,
-                           openedAt := if st = St.opened ∧ l.st ≠ St.opened then r.clk else l.openedAt }
-      else o
-    | none => o
-  -- transitions
-  let (o, oo) :=
-    if changed then
-      let n : Note := ⟨before, r.st, r.tid⟩
-      let bad := if r.frm ≠ "sc" then some s!"state word changed at {r.frm}, not at a CAS"
-                 else if !legal before r.st then some s!"illegal edge {stc before}>{stc r.st}" else none
-      let opening := r.st = .opened ∧ (r.to = "rs" ∨ r.to = "pr")     -- fromClosedToOpen / fromHalfOpenToOpen (not the rollback)
-      let o := { o with owed := o.owed ++ [n], trBad := orElse o.trBad bad }
-      let oo := { oo with st := r.st, hist := oo.hist ++ [n] }
-      let oo := if opening then { oo with openedAt := r.clk, epoch := oo.epoch + 1, fresh := false } else oo
-      if before = .opened ∧ r.st = .halfOpen ∧ r.clk < oo.openedAt + timeout then
-        match lookupLoad o.loads r.tid with
-        | some (ob, ep, fr) =>
-          if ob ≠ r.obj ∨ oo.foreign then ({ o with earlyOut := true }, oo)
-          else if ep ≠ oo.epoch then ({ o with earlyStale := true }, oo)
-          else if !fr then ({ o with earlyNoDl := true }, oo) else ({ o with earlyOut := true }, oo)
-        | none => ({ o with earlyOut := true }, oo)
-      else (o, oo)
-    else (o, oo)
-  -- deadline store / load bookkeeping
-  let (o, oo) := if r.frm = "rs" then
-      ({ o with trBad := orElse o.trBad (if r.dl ≠ r.clk + timeout then some "deadline store is not now+timeout" else none) },
-       { oo with fresh := true, dl := r.dl })
-    else ({ o with trBad := orElse o.trBad (if r.dl ≠ oo.dl then some s!"deadline changed at {r.frm}, not at a deadline store" else none) }, oo)
+  -- a request walks over the published list as it stood when it looked it up: old or new, never a mixture
+  let o := r.snaps.foldl (fun (o : OS) l =>
+      flag { o with snapOf := (r.tid, l) :: o.snapOf.filter fun p => p.1 ≠ r.tid } (l ≠ o.pub)
+        s!"a request saw the breaker list {listS l} while the published list is {listS o.pub}") o
+  -- state words: at most one changes, at a CAS, along a legal edge
+  let changed := r.ws.filter fun (k, st, _, _) => st ≠ (getOO o k).st
+  let o := flag o (changed.length > 1) "the state words of several breaker objects changed in one step"
+  let before : Option St := (changed.head?).map fun (k, _, _, _) => (getOO o k).st
+  let o := changed.foldl (fun (o : OS) (k, st, _, _) =>
+      let oo := getOO o k
+      let (timeout, _) := ruleOf o k
+      let n : Note := ⟨oo.st, st, r.tid⟩
+      let o := flag o (r.frm ≠ "sc") s!"state word of breaker object {k} changed at {r.frm}, not at a CAS"
+      let o := flag o (r.frm = "sc" ∧ !legal oo.st st) s!"illegal edge {stc oo.st}>{stc st}"
+      let o := { o with owed := o.owed ++ [n] }
+      let opening := st = St.opened ∧ (r.to = "rs" ∨ r.to = "pr")     -- fromClosedToOpen / fromHalfOpenToOpen (not the rollback)
+      let oo' := if opening then { oo with st := st, openedAt := r.clk, epoch := oo.epoch + 1, fresh := false } else { oo with st := st }
+      let o := setOO o k oo'
+      if oo.st = St.opened ∧ st = St.halfOpen ∧ r.clk < oo'.openedAt + timeout then
+        match ((o.loads.find? fun p => p.1 = r.tid).bind fun p => p.2[k]?) with
+        | some (ep, fr) =>
+          if ep ≠ oo'.epoch then { o with earlyStale := true }
+          else if !fr then { o with earlyNoDl := true } else { o with earlyOut := true }
+        | none => { o with earlyOut := true }
+      else o) o
+  -- deadlines: change only at a deadline store, to now + timeout of that object
+  let dchanged := r.ws.filter fun (k, _, dl, _) => dl ≠ (getOO o k).dl
+  let o := flag o (!dchanged.isEmpty ∧ r.frm ≠ "rs") s!"a retry deadline changed at {r.frm}, not at a deadline store"
+  let o := flag o (dchanged.length > 1) "the deadlines of several breaker objects changed in one step"
+  let o := dchanged.foldl (fun (o : OS) (k, _, dl, _) =>
+      let o := flag o (r.frm = "rs" ∧ dl ≠ r.clk + (ruleOf o k).1) "deadline store is not now+timeout"
+      setOO o k { getOO o k with dl := dl }) o
+  -- a deadline store makes the deadline of the opening current (if the stored value equals the old one the object
+  -- is not identifiable from the words: every object whose deadline reads now+timeout is in that situation — and a
+  -- TryPass that loads such a deadline waits the full timeout from now anyway)
+  let o := if r.frm = "rs" then
+      r.ws.foldl (fun (o : OS) (k, _, dl, _) =>
+        if (dchanged.any fun p => p.1 = k) ∨ dl = r.clk + (ruleOf o k).1 then
+          setOO o k { getOO o k with fresh := true } else o) o
+    else o
   let o := if r.frm = "rl" ∧ r.to = "sc" then
-      { o with loads := (r.tid, r.obj, oo.epoch, oo.fresh) :: o.loads.filter fun p => p.1 ≠ r.tid } else o
-  let o := setOO o r.obj oo
+      { o with loads := (r.tid, (List.range o.objs.length).map fun k => ((getOO o k).epoch, (getOO o k).fresh))
+                        :: o.loads.filter fun p => p.1 ≠ r.tid } else o
   -- listener calls of this step
   let o := r.logs.foldl (fun (o : OS) (p : St × St) =>
       let n : Note := ⟨p.1, p.2, r.tid⟩
       if o.owed.contains n then { o with owed := o.owed.erase n, log := o.log ++ [n] }
       else { o with log := o.log ++ [n],
                     nfBad := orElse o.nfBad (some s!"listener call {noteS n} without a CAS won by that thread with that prev") }) o
-  -- TryPass results of this step
-  r.ress.foldl (fun (o : OS) (b : Bool) =>
-      let okTrue := (r.frm = "sg" ∧ before = St.closed) ∨ (r.frm = "sc" ∧ before = St.opened ∧ r.st = St.halfOpen)
-                    ∨ (probeNum > 0 ∧ r.frm = "sg" ∧ before = St.halfOpen)
-      { o with ress := o.ress ++ [(r.tid, b)],
-               prBad := orElse o.prBad (if b ∧ ¬ okTrue then
-                 some s!"thread {r.tid} admitted at {r.frm} while the state word was {stc before}" else none) }) o
+  -- results of checks: `true` is produced by the TryPass of the last breaker of the snapshot (or by an empty list)
+  let inCall := !(r.frm == "start" || r.frm == "rd" || r.frm == "rb" || r.frm == "done")
+  ((r.ress.foldl (fun (p : OS × Bool) (b : Bool) =>
+      let (o, first) := p
+      let okTrue : Bool := if !(first && inCall) then true else
+        match snapBefore.getLast? with
+        | none => true
+        | some k =>
+          let stNow := (getOO o k).st
+          let stBefore := match changed.find? fun p => p.1 = k with | some _ => before.getD stNow | none => stNow
+          (r.frm == "sg" && stBefore == St.closed) || (r.frm == "sc" && stBefore == St.opened && stNow == St.halfOpen)
+            || ((ruleOf o k).2 > 0 && r.frm == "sg" && stBefore == St.halfOpen)
+      ({ o with ress := o.ress ++ [(r.tid, b)],
+                prBad := orElse o.prBad (if b && !okTrue then
+                  some s!"thread {r.tid} admitted at {r.frm} by breaker object {listS (snapBefore.getLast?.toList)} which was neither Closed nor just probed" else none) },
+       false)) (o, true)).1)
 
 structure OD where
   timeout : Nat := 0
@@ -416,7 +492,6 @@ structure OD where
   nthreads : Nat := 0                -- threads declared since the last `sched`
   lastN : Nat := 0                   -- threads of the last `sched`
   os : Option OS := none
-  parseBad : Bool := false
 
 def verdict (x : Option String) : String := match x with | some w => "bad " ++ w | none => "ok"
 
@@ -428,18 +503,18 @@ def stepOracle (s : OD) (ts : List String) (line : String) : OD × Option String
     match parseCfg? rest with
     | some cfg => ({ timeout := cfg.timeout, probeNum := cfg.probeNum, cfgOk := true }, none)
     | none => (s, some "bad-op")
+  | "rule" :: _ => (s, none)
   | "thread" :: _ => ({ s with nthreads := s.nthreads + 1 }, none)
   | "sched" :: _ =>
     if !s.cfgOk then (s, some "bad-op") else
     match resPart line with
     | none => (s, some "bad-op")
     | some r =>
-      if r = "bad-op" then (s, some "bad-op") else
       match (if r = "-" then some [] else (toks r).mapM parseRec?) with
-      | none => ({ s with parseBad := true }, some "bad unreadable trace")
+      | none => (s, some "bad unreadable trace")
       | some recs =>
         let o0 : OS := match s.os with
-          | some o => { o with ress := [], loads := [] }
+          | some o => { o with ress := [], loads := [], snapOf := [] }
           | none => { rules := [(0, s.timeout, s.probeNum)] }
         let o := recs.foldl judgeRec o0
         ({ s with os := some o, lastN := s.nthreads, nthreads := 0 }, some (verdict o.trBad))
